@@ -4093,8 +4093,9 @@ def spec_hidden_element_nothing(ctx, make_exe):
         post(exe, s2, z3.BoolVal(bool(ok)), f.name, "a hidden element yields nothing")
         bad = [c for c in calls if re.match(r"(pending|pending_noempty|insert_child|new|new_styled|borrow)$", c)]
         post(exe, s2, z3.BoolVal(not bad), f.name, "a hidden element contributes no node, marker or child (calls: %s)" % bad)
-    if not n_hidden or not n_shown:
-        raise Inconclusive("hidden / shown paths not both reached (%d / %d)" % (n_hidden, n_shown))
+    if not n_shown:
+        raise Inconclusive("no path reaches the dispatch on the element name")
+    # (when no path skips a hidden element, the first postcondition above has already failed)
     return {"function": f.name, "paths": len(outs)}
 
 
